@@ -119,3 +119,51 @@ def all_item_seqs(alphabet, maxlen):
     for n in range(1, maxlen + 1):
         for seq in itertools.product(alphabet, repeat=n):
             yield list(seq)
+
+
+# ---- forests modulo coordinates -----------------------------------------------------------
+
+def parse_forest(s):
+    """full parse of the rendered forest: list of dict(kind, kw, f, kb, ke, np, up, ann, body, x, tr, kids)"""
+    pos = 0
+
+    def node():
+        nonlocal pos
+        assert s[pos] == "(", (pos, s[pos:pos + 20])
+        k = s.index(" [", pos)
+        head = s[pos + 1:k].split(" ")
+        d = {"kind": int(head[0])}
+        for kv in head[1:]:
+            a, _, b = kv.partition("=")
+            d[a] = b
+        pos = k + 2
+        kids = []
+        while s[pos] == "(":
+            kids.append(node())
+        assert s[pos:pos + 2] == "])"
+        pos += 2
+        d["kids"] = kids
+        return d
+
+    out = []
+    while pos < len(s):
+        out.append(node())
+    return out
+
+
+def shape(forest, files):
+    """what a forest MEANS: kinds, keywords, parameters, annotations, body TEXT, explicit flags,
+    nesting - without file names, offsets and include traces"""
+    fmap = {(n if isinstance(n, str) else n.decode("latin1")): (c if isinstance(c, bytes) else c.encode("latin1")) for n, c in files}
+
+    def body_text(b):
+        if b == "-":
+            return None
+        f, beg, end = b.split(":")
+        name = C.unhx(f).decode("latin1")
+        return fmap.get(name, b"?")[int(beg):int(end) + 1]
+
+    def one(d):
+        return (d["kind"], d["kw"], d["np"], d["up"], d["ann"], body_text(d["body"]), d["x"], tuple(one(k) for k in d["kids"]))
+
+    return tuple(one(d) for d in forest)
